@@ -50,6 +50,19 @@ CLAIMED["C09"] = (
     "Decides only the premises, each necessary: every single-root outcome of the decision table carries an existing root (no trust reset); the successor window starts at the midpoint of the carried root's remaining life; nodes get one certificate per server root with the root's own validity; client and server use a bundle only if leaf and CA are inside their validity at one clock reading, with exactly those four comparisons. The theorem itself (cadence bounds imply a valid, trusted chain at every instant) is real-time arithmetic and is NOT decided.",
     _T, "DESIGN.md 5/C09")
 
+CLAIMED["C11"] = (
+    "sibling-agreement tables (AEAD key/key-ID/AAD operands of EncryptMessage vs decryptWithKey; argument roles of the two X25519 key producers and previous-key recorders) + SSA guard-cut of the fallback discipline + panic-site enumeration with a dependency precondition summary",
+    "Decides that encryption and decryption configure the AEAD from one producer pair and bind AAD to the key ID under the same condition; that the previous key is tried only after the current key failed and only if present, success is reported only after an attempt succeeded, and the result is written only from decrypted plaintext; that node side and server side pass (own private, peer public) in matching roles and record/read the previous key consistently; and that no panic site (including aead.Wrapper.Decrypt's unchecked Ciphertext[:12]) is reachable from DecryptMessage without its guard. Round-trip equality, AEAD authenticity and X25519 algebra are not decided.",
+    _T, "DESIGN.md 5/C11")
+CLAIMED["C14"] = (
+    "panic-site enumeration over the call-graph reach set of InterceptingListener.Accept with guard-cut / range / array / container-invariant discharges and dependency precondition summaries + error-classification of Accept's returns + who-may-close",
+    "Decides that every index, slice, unchecked type assertion, integer division and explicit panic in the ~78 module functions reachable from Accept (closures, listener function fields, module storage back ends) is discharged on every path, that remote-controlled blobs reach aead.Wrapper.Decrypt only behind its length precondition (one listed known finding, D11, for the application-supplied registration wrapper), that after a connection was accepted Accept returns only nil or temperror-wrapped errors with a nil connection, that the failed connection is closed, and that nothing but InterceptingListener.Close closes the base listener. Nil dereferences, panics inside the standard library / protobuf / application callbacks, and liveness ('an honest node still connects') are not decided.",
+    _T, "DESIGN.md 5/C14")
+CLAIMED["C20"] = (
+    "encoder/decoder agreement table extracted from the Sprintf format and the decoder's strip calls + panic-site enumeration + constant arithmetic on the chunk budget",
+    "Decides that the decoder removes exactly what the encoder's format writes for every chunk index (delimiter-based cut at the encoder's delimiter, which an unsigned decimal counter cannot contain; a fixed-width strip is accepted only with an index bound), that entries start with the prefix parameter and carry a slice of the value, that no slice/index/division in either function can panic (clamped bounds; constant prefixes at every call site), and that B + digits + delimiter <= 255 for every index a ClientHello-sized payload can need. Content equality of the round trip for every payload is not decided.",
+    _T, "DESIGN.md 5/C20")
+
 _PENDING = "check not built yet in this round (design in DESIGN.md section 5); will be claimed once its rules are exact on the repaired tree"
 for _p in ["C01","C02","C03","C04","C06","C07","C08","C09","C10","C11","C12","C13","C14","C15","C16","C17","C18","C19","C20"]:
     if _p not in CLAIMED:
